@@ -5,8 +5,8 @@
    (VIOLATION) or merely departs from the model while the property still holds (DRIFT).            *)
 EXTENDS ServerConn, Json, IOUtils, TLCExt
 Traces == JsonDeserialize(IOEnv.TRACE_FILE)
-VARIABLES tid, l, aflags
-ovars == <<vars, tid, l, aflags>>
+VARIABLES tid, l, aflags, consulted
+ovars == <<vars, tid, l, aflags, consulted>>
 T == Traces[tid]
 Steps == T.steps
 Ev == Steps[l]
@@ -28,11 +28,13 @@ OInit == /\ tid \in 1..Len(Traces) /\ l = 1
          /\ delivered = 0 /\ lineSeen = FALSE /\ awaiting = FALSE /\ pending = "none" /\ mwIdx = 0
          /\ timer = "armed" /\ tp = "open" /\ wire = <<>> /\ torn = FALSE
          /\ calls = [h |-> 0, u |-> 0, mw |-> 0] /\ peerGone = FALSE /\ complete = FALSE
-         /\ aflags = <<TRUE, TRUE>>
+         /\ aflags = <<TRUE, TRUE>> /\ consulted = TRUE
 ONext ==
   /\ l <= Len(Steps) /\ l' = l + 1 /\ UNCHANGED <<tid, cfg, lineSeen, awaiting>>
   /\ LET o == Ev.o IN
      /\ wire' = o.wire /\ tp' = o.tp /\ torn' = o.torn
+     \* C04: observed by the scripted components: (url, peer address, fingerprint) they were consulted with
+     /\ consulted' = (consulted /\ o.consultedOK)
      /\ calls' = [h |-> o.h, u |-> o.u, mw |-> o.mw]
      /\ mwIdx' = o.mw
      /\ pending' = IF o.busy THEN "handler" ELSE "none"
@@ -46,6 +48,6 @@ ONext ==
                          => (Len(o.wire) = 1 /\ o.wire[1].st = 40 /\ o.tp = "closing") >>
 Flags == << OneResponse, WellFormed, NeverTorn, ThenClosed, GateC04, NoneBeyondRefusal, FirstRejectionWins,
             AtMostOnce, TimerWhileWaiting, AnsweredWhenQuiet, SegIndep, OnlyValidReachHandler, Progress,
-            aflags[1], aflags[2] >>
+            aflags[1], aflags[2], consulted >>
 Report == PrintT(<<"REACHED", tid, l, Len(Steps) + 1, Flags>>)
 =============================================================================
